@@ -3,27 +3,39 @@ and returns True iff the failing case belongs to that listed finding.  A new fai
 of these predicates holds of it."""
 import re, datetime
 
+_KEEP = []
+def _alive(gen):
+    """iterate a lazy compose_all but keep every yielded node alive: the walkers memoise id(node), and ids are unique only
+    among live objects (documents before an error are still delivered, unlike list(gen))"""
+    if len(_KEEP) > 5000: del _KEEP[:]
+    for n in gen:
+        _KEEP.append(n); yield n
+
 def _ts_fields(text):
     m = re.match(r'^([0-9]{4})-([0-9][0-9]?)-([0-9][0-9]?)(?:(?:[Tt]|[ \t]+)([0-9][0-9]?):([0-9][0-9]):([0-9][0-9])(?:\.([0-9]*))?(?:[ \t]*(Z|([-+])([0-9][0-9]?)(?::([0-9][0-9]))?))?)?$', text)
     return m
 
 def _scalar_nodes(text):
-    """(tag, value) of every scalar node of every document, as composed with SafeLoader"""
+    """(tag, value) of every scalar node of every document, as composed with SafeLoader and CSafeLoader"""
     import yaml
-    out = []; seen = set()
+    out = []; seen = set(); keep = []                  # keep: ids are only unique while the nodes are alive
     def walk(n):
         if id(n) in seen: return
-        seen.add(id(n))
+        seen.add(id(n)); keep.append(n)
         if isinstance(n, yaml.ScalarNode): out.append((n.tag, n.value))
         elif isinstance(n, yaml.SequenceNode):
             for x in n.value: walk(x)
         elif isinstance(n, yaml.MappingNode):
             for k, v in n.value: walk(k); walk(v)
-    try:
-        for n in yaml.compose_all(text, Loader=yaml.SafeLoader):
-            if n is not None: walk(n)
-    except Exception:
-        pass
+    # both back-ends: they stop at different places on input that only one of them rejects (e.g. a BOM in mid-stream);
+    # the documents composed before an error are kept
+    for L in (yaml.SafeLoader, getattr(yaml, 'CSafeLoader', None)):
+        if L is None: continue
+        try:
+            for n in yaml.compose_all(text, Loader=L):
+                if n is not None: walk(n)
+        except Exception:
+            pass
     return out
 def _doc_case(d): return d.get('loader') is not None or d.get('backend') is not None or d.get('form') is not None
 
@@ -299,7 +311,7 @@ def explicit_tag_unsuitable_payload(d):
         elif isinstance(n, yaml.MappingNode):
             for k, v in n.value: walk(k); walk(v)
     try:
-        for n in yaml.compose_all(text, Loader=yaml.SafeLoader):
+        for n in _alive(yaml.compose_all(text, Loader=yaml.SafeLoader)):
             if n is not None: walk(n)
     except Exception:
         pass
@@ -331,7 +343,7 @@ def merge_source_tag_ignored(d):
                 walk(k, False)
                 walk(v, k.tag == 'tag:yaml.org,2002:merge' and isinstance(v, (yaml.MappingNode, yaml.SequenceNode)))
     try:
-        for n in yaml.compose_all(d['text'], Loader=yaml.SafeLoader):
+        for n in _alive(yaml.compose_all(d["text"], Loader=yaml.SafeLoader)):
             if n is not None: walk(n, False)
     except Exception: return False
     return foreign_merge[0] and not foreign_elsewhere[0]
@@ -364,7 +376,7 @@ def value_key_tag_ignored(d):
                 if k.tag == P + 'value': first = False
                 walk(v, is_value and isinstance(v, (yaml.ScalarNode, yaml.MappingNode)))
     try:
-        for n in yaml.compose_all(d['text'], Loader=yaml.SafeLoader):
+        for n in _alive(yaml.compose_all(d["text"], Loader=yaml.SafeLoader)):
             if n is not None: walk(n, False)
     except Exception: return False
     return here[0] and not elsewhere[0]
